@@ -273,7 +273,12 @@ def wfB (script : List Op) : Bool :=
       | some a, some b => a != b
       | _, _ => true)))
 
+def isWhereOp : Op → Bool | .whereOp .. => true | _ => false
+
 def noMountB (script : List Op) : Bool := script.all fun op => !isMountOp op
+
+/-- no constraint is added to a route after its declaration (`Where…` re-registers a registered route) -/
+def noWhereB (script : List Op) : Bool := script.all fun op => !isWhereOp op
 
 /-- only the serving router is warmed up explicitly (a sub-router warmed up before `Mount` is
     finding K02b) -/
